@@ -60,9 +60,15 @@ impl<T: RefCnt> HybridProtection<T> {
             // possibly destroyed) and fail.
             None
         } else {
-            // It changed in the meantime, but the debt for the previous pointer was already paid
-            // for by someone else, so we are fine using it.
-            Some(unsafe { Self::new(ptr, None) })
+            // It changed in the meantime and the debt was already paid for by someone else, so we
+            // own one reference to whatever lives at that address now. We must not return it,
+            // though: debts are matched by address only, so the payer may have been a writer of
+            // *another* ArcSwap into which a new value, allocated at the same address after the
+            // one we have read was freed, has been stored in the meantime ‒ a value that was never
+            // stored in here. Give the reference back and use the fallback, which is tied to
+            // this storage.
+            unsafe { T::dec(ptr) };
+            None
         }
     }
 
